@@ -860,7 +860,7 @@ Fixpoint frames_of (gnext : list placement) (ops : list gop) : list (bool * list
   match ops with
   | [] => []
   | OClear :: t => frames_of [] t
-  | ODraw p :: t => frames_of (gnext ++ [p]) t
+  | ODraw p ww wh :: t => frames_of (draw_into gnext p ww wh) t
   | ORender :: t => (false, gnext) :: frames_of gnext t
   | ORefresh :: t => (true, gnext) :: frames_of gnext t
   end.
@@ -880,6 +880,46 @@ Proof.
   - rewrite IH. reflexivity.
   - rewrite render_graphics_spec. rewrite IH. reflexivity.
   - rewrite render_graphics_spec. rewrite IH. reflexivity.
+Qed.
+
+(* a placement shown in some frame was drawn into a window at least as large as the image *)
+Lemma frames_of_inside ops :
+  forall (Q : placement -> Prop) gnext, (forall p, In p gnext -> Q p) ->
+  forall i r cur p, nth_error (frames_of gnext ops) i = Some (r, cur) -> In p cur ->
+  Q p \/ exists ww wh, In (ODraw p ww wh) ops /\ p_w p <= ww /\ p_h p <= wh.
+Proof.
+  induction ops as [|o t IH]; intros Q gnext HQ i r cur p H I.
+  - destruct i; discriminate.
+  - destruct o as [|q ww wh| |]; cbn [frames_of] in H.
+    + destruct (IH Q [] ltac:(intros ? []) i r cur p H I) as [L|[a [b [J K]]]]; [left; exact L|].
+      right. exists a, b. split; [right; exact J | exact K].
+    + set (Q' := fun p' => Q p' \/ (p' = q /\ p_w q <= ww /\ p_h q <= wh)).
+      assert (HQ' : forall p', In p' (draw_into gnext q ww wh) -> Q' p').
+      { intros p' I'. unfold draw_into, draw_fits in I'.
+        destruct ((ww <? p_w q) || (wh <? p_h q)) eqn:E; cbn [negb] in I'.
+        - left. apply HQ. exact I'.
+        - apply in_app_iff in I'. destruct I' as [I' | [<- | []]]; [left; apply HQ; exact I'|].
+          right. split; [reflexivity|]. lia. }
+      destruct (IH Q' _ HQ' i r cur p H I) as [[L | [-> L]] | [a [b [J K]]]].
+      * left; exact L.
+      * right. exists ww, wh. split; [left; reflexivity | exact L].
+      * right. exists a, b. split; [right; exact J | exact K].
+    + destruct i as [|j]; cbn [nth_error] in H.
+      * injection H as <- <-. left. apply HQ. exact I.
+      * destruct (IH Q gnext HQ j r cur p H I) as [L | [a [b [J K]]]]; [left; exact L|].
+        right. exists a, b. split; [right; exact J | exact K].
+    + destruct i as [|j]; cbn [nth_error] in H.
+      * injection H as <- <-. left. apply HQ. exact I.
+      * destruct (IH Q gnext HQ j r cur p H I) as [L | [a [b [J K]]]]; [left; exact L|].
+        right. exists a, b. split; [right; exact J | exact K].
+Qed.
+
+Theorem placement_inside_window ops i r cur p :
+  nth_error (frames_of [] ops) i = Some (r, cur) -> In p cur ->
+  exists ww wh, In (ODraw p ww wh) ops /\ p_w p <= ww /\ p_h p <= wh.
+Proof.
+  intros H I.
+  destruct (frames_of_inside ops (fun _ => False) [] ltac:(intros ? []) i r cur p H I) as [[] | E]. exact E.
 Qed.
 
 (* graphicsNext of the previous frame (nothing before the first) *)
